@@ -37,6 +37,14 @@ instances of repository classes with their attribute dictionaries) and `UNKNOWN`
   * loops with an opaque condition are executed zero times or once (the exception flow of a second
     iteration equals that of the first: no abstract value that the analysis looks at changes).
 
+  * a servicer method called from client code (the RPC boundary, locally or through a stub) is analysed
+    once per (method, state, contract); its path set is reduced (`reduce_paths`: a decision whose two
+    subtrees are observationally identical is dropped) and replayed at the call site, so that the client
+    level only multiplies the *relevant* decisions of the callee;
+  * an `if` whose arms contain the check of a named condition of the state is taken towards that check
+    (the condition holding means the execution gets there); `x[i]` on a container that the path condition
+    says is empty raises IndexError.
+
 Implicit exceptions of straight-line code (IndexError of a subscript, TypeError of a library
 call, attrs validators) are not modelled; this is listed by the client of this module as an
 assumption.
